@@ -9,9 +9,11 @@ Record crypto_ok (C : crypto) : Prop := {
   hash_eqb_spec : forall a b, hash_eqb C a b = true <-> a = b;
   (* SHA-1 does not collide on the passwords considered *)
   digest_inj : forall p q, digest C p = digest C q -> p = q;
-  (* bcrypt: a hash generated from p verifies exactly p -- for attempts of at most 72 bytes
-     (bcrypt reads only the first 72 bytes of longer ones) *)
-  verify_gen : forall s p q, too_long C q = false -> (verify C (gen C s p) q = true <-> p = q)
+  (* bcrypt: a hash generated from p verifies exactly p -- among [plain] passwords (at most 72 bytes, no
+     NUL byte).  Outside that domain bcrypt itself identifies strings: it keys on the first 72 bytes of
+     the cyclic repetition of password ++ NUL. *)
+  verify_gen : forall s p q, plain C p = true -> plain C q = true ->
+                             (verify C (gen C s p) q = true <-> p = q)
 }.
 
 (* ---- association lists ---- *)
@@ -172,7 +174,7 @@ Section Proofs.
     Inv st -> authed (snd (step_gen C ccd st (AuthPassword u q ev))) = Some w ->
     w = u /\ exists usr, alookup u (users st) = Some usr /\ u_disabled usr = false /\
       match u_hash usr with Some h => verify C h q = true | None => q = 0 end /\
-      (too_long C q = false -> q = u_pw usr).
+      (plain C q = true -> plain C (u_pw usr) = true -> q = u_pw usr).
   Proof.
     intros [I1 I2 I3 I4] H. unfold step_gen in H.
     destruct (alookup u (users st)) as [usr|] eqn:Eu; [|discriminate H].
@@ -188,12 +190,12 @@ Section Proofs.
         - destruct (verify C h q) eqn:Ev; cbn in H; [inv H; auto | discriminate H]. }
       destruct Hv as [Hv ->]. split; [reflexivity|]. exists usr.
       split; [solve [auto]|]. split; [solve [auto]|]. rewrite ?Eh. split; [exact Hv|].
-      intros Hl. destruct I4 as [[I4 _]|[s [I4 _]]]; [discriminate I4|].
+      intros Hl Hl'. destruct I4 as [[I4 _]|[s [I4 _]]]; [discriminate I4|].
       inv I4. apply (verify_gen C OK) in Hv; auto.
     - cbn in H. destruct (q =? 0) eqn:E0; [|discriminate H]. inv H. keq.
       split; [reflexivity|]. exists usr.
       split; [solve [auto]|]. split; [solve [auto]|]. rewrite ?Eh. split; [exact E0|].
-      intros _. destruct I4 as [[_ I4]|[s [I4 _]]]; [congruence | discriminate I4].
+      intros _ _. destruct I4 as [[_ I4]|[s [I4 _]]]; [congruence | discriminate I4].
   Qed.
 
   (* the fast path accepts nothing the full check rejects *)
@@ -412,21 +414,44 @@ Section Proofs.
   Qed.
 
   (* after a successful password set to p, and as long as nobody sets u's password again, every other
-     attempt (of at most 72 bytes) is refused *)
+     attempt is refused (p and the attempt plain) *)
   Lemma wrong_password_rejected ccd ops : forall st u p,
     Inv st -> (forall usr, alookup u (users st) = Some usr -> u_pw usr = p) ->
     Forall (fun o => ~ sets_password u o) ops ->
-    forall q ev, q <> p -> too_long C q = false ->
+    plain C p = true ->
+    forall q ev, q <> p -> plain C q = true ->
       authed (snd (step_gen C ccd (run_gen C ccd st ops) (AuthPassword u q ev))) = None.
   Proof.
-    induction ops as [|o ops IH]; intros st u p I Hp NS q ev Hq Hl.
+    induction ops as [|o ops IH]; intros st u p I Hp NS Pp q ev Hq Hl.
     - cbn [run_gen fold_left].
       destruct (authed (snd (step_gen C ccd st (AuthPassword u q ev)))) as [w|] eqn:E; [|reflexivity].
       destruct (password_auth_sound _ _ _ _ _ _ I E) as [_ [usr [Eu [_ [_ Hpw]]]]].
-      specialize (Hpw Hl). specialize (Hp _ Eu). congruence.
+      specialize (Hp _ Eu). rewrite Hp in Hpw. specialize (Hpw Hl Pp). congruence.
     - inv NS. cbn [run_gen fold_left]. apply (IH _ u p); auto using Inv_step.
       intros usr' Hu'. destruct (password_frame _ _ _ _ _ H1 Hu') as [usr [Eu Epw]].
       rewrite <- Epw. auto.
+  Qed.
+
+  Lemma killed_forever ccd st sid :
+    Inv st -> dead st sid ->
+    forall ops o, no_recreate sid ops -> presents o sid ->
+      authed (snd (step_gen C ccd (run_gen C ccd st ops) o)) = None.
+  Proof.
+    intros I D ops o NR P. apply (dead_no_auth ccd _ sid); [|exact P]. apply dead_forever; assumption.
+  Qed.
+
+  Lemma set_then_wrong_password_rejected ccd st u p salt o :
+    Inv st -> o = CreateUser u p salt \/ o = SetPassword u p salt ->
+    snd (step_gen C ccd st o) = ODone ->
+    forall ops, Forall (fun o' => ~ sets_password u o') ops ->
+    plain C p = true ->
+    forall q ev, q <> p -> plain C q = true ->
+      authed (snd (step_gen C ccd (run_gen C ccd (fst (step_gen C ccd st o)) ops) (AuthPassword u q ev))) = None.
+  Proof.
+    intros I Ho Hd ops NS Pp q ev Hq Hl.
+    destruct (password_set_recorded ccd st u p salt o Ho Hd) as [usr [Eu Epw]].
+    apply (wrong_password_rejected ccd ops _ u p); auto using Inv_step.
+    intros usr' Eu'. congruence.
   Qed.
 
 End Proofs.
@@ -437,6 +462,9 @@ Proof.
   split; cbn.
   - intros [a b] [c d]; cbn. rewrite andb_true_iff, !N.eqb_eq. split; [intros [-> ->]; reflexivity | intros E; inv E; auto].
   - auto.
-  - intros s p q Hl. unfold trunc72. apply N.leb_gt in Hl. rewrite N.mod_small by exact Hl.
-    rewrite N.eqb_eq. tauto.
+  - intros s p q Hp Hq. unfold canon.
+    apply andb_true_iff in Hp; destruct Hp as [Hp Hp7]. apply andb_true_iff in Hp; destruct Hp as [Hp _].
+    apply andb_true_iff in Hq; destruct Hq as [Hq Hq7]. apply andb_true_iff in Hq; destruct Hq as [Hq _].
+    apply N.ltb_lt in Hp, Hq. apply negb_true_iff in Hp7, Hq7.
+    rewrite !N.mod_small by assumption. rewrite Hp7, Hq7. rewrite N.eqb_eq. tauto.
 Qed.
